@@ -23,10 +23,20 @@ import (
 	"verif/engine/sym"
 )
 
-const (
-	VerifDir   = "/verif"
-	HarnessDir = "/verif/harness"
-)
+// VerifDir is the directory that holds bin/, harness/, evidence/ and
+// known_findings.json: the parent of the directory of this executable (so a
+// snapshot of /verif is self-contained), /verif as a fallback.
+var VerifDir = func() string {
+	if exe, err := os.Executable(); err == nil {
+		d := filepath.Dir(filepath.Dir(exe))
+		if st, err := os.Stat(filepath.Join(d, "harness")); err == nil && st.IsDir() {
+			return d
+		}
+	}
+	return "/verif"
+}()
+
+var HarnessDir = filepath.Join(VerifDir, "harness")
 
 // RepoDir is /repo. VERIF_REPO overrides it for development only (running the
 // engine against a scratch worktree while /repo is busy); registered commands
